@@ -11,7 +11,14 @@
     d.WF          each box finds its `dom` wires at its offset and the scan ends at `cod`
     b.Respects    on `dom` atomic arguments the box returns something that unpacks (tuplify) to
                   exactly `cod` atomic values — a bare value or a 1-tuple for `cod = 1`, `()` for 0
-    AllAtoms xs   no Python tuple among the values
+    AllAtoms xs   no Python tuple among the values: ints (`atom n`) and typed tokens (`tok ty n`:
+                  floats, bools, None, strings, lists, dicts, sets …) alike.  Every theorem below
+                  therefore holds for inputs of all these types, and says that the result carries
+                  the very tokens a run puts on the wires: `1`, `1.0` and `True` (`atom 1`,
+                  `tok float 1`, `tok bool 1`) are three different values (`typed_tokens_distinct`)
+                  that Python's `==`/`hash` cannot tell apart.  The model has no history: `d.call`
+                  is a function of the inputs alone, so the differential check may call one diagram
+                  object several times and compare every call with the same `d.call`.
 
   Stated limit (not a partial proof): wires carry non-tuple values.  A box that puts a tuple on a
   single wire is re-split by `tuplify`; `limit_witness` below exhibits the counter-case, so the
@@ -131,6 +138,17 @@ theorem affine_respects (m n : Nat) (s : Int) (bare : Bool) :
 /-- Hierarchical boxes: a box whose function is the identity sub-diagram `Id(m)`. -/
 theorem ident_respects (m : Nat) : ((Prim.ident m).box m m).Respects := Cart.ident_respects m
 
+/-- Type-observing and type-preserving pool boxes, and 0-input states of any (non-tuple) value. -/
+theorem tyc_respects (m i : Nat) : ((Prim.tyc m i).box m 1).Respects := Cart.tyc_respects m i
+
+theorem proj_respects (m i : Nat) : ((Prim.proj m i).box m 1).Respects := Cart.proj_respects m i
+
+theorem pick_respects (m : Nat) (is : List Nat) : ((Prim.pick m is).box m is.length).Respects :=
+  Cart.pick_respects m is
+
+theorem const_respects (m : Nat) (v : PyVal) (hv : v.isAtom = true) :
+    ((Prim.const m v).box m 1).Respects := Cart.const_respects m v hv
+
 theorem generators_respect : SWAP.Respects ∧ COPY.Respects ∧ DISCARD.Respects ∧ ADD.Respects :=
   ⟨Cart.SWAP_respects, Cart.COPY_respects, Cart.DISCARD_respects, Cart.ADD_respects⟩
 
@@ -172,6 +190,47 @@ example : (swapD 2 3).bind (·.call [.atom 0, .atom 1, .atom 2, .atom 3, .atom 4
 example : (copyD 3).bind (·.call [.atom 0, .atom 1, .atom 2]) =
     .ok (.tup [.atom 0, .atom 1, .atom 2, .atom 0, .atom 1, .atom 2]) := by decide
 example : (discardD 2).call [.atom 43, .atom 44] = .ok (.tup []) := by decide
+
+/-! ### Typed tokens: equal-looking values of different types stay apart -/
+
+/-- `1`, `1.0`, `True` — and `0.0`, `-0.0` (entry 0 of the harness's table of other floats) —
+    are pairwise different wire values, whatever Python's `==` says. -/
+theorem typed_tokens_distinct :
+    PyVal.atom 1 ≠ .tok .float 1 ∧ PyVal.atom 1 ≠ .tok .bool 1 ∧
+      PyVal.tok .float 1 ≠ .tok .bool 1 ∧ PyVal.tok .float 0 ≠ .tok .floatx 0 ∧
+      (∀ t n, (PyVal.tok t n).isAtom = true) := by
+  refine ⟨by decide, by decide, by decide, by decide, fun _ _ => rfl⟩
+
+/-- `SWAP >> tyc @ proj`: the type of the first output and the second output itself.  On
+    `(1, 2.0)`, `(1.0, 2)` and `(True, None)` — three calls a cache keyed by `==` would confuse —
+    the model answers with the types of THIS call. -/
+def ex2 : CDiagram := ⟨2, 2, [SWAP, (Prim.tyc 1 0).box 1 1, (Prim.proj 1 0).box 1 1], [0, 0, 1]⟩
+
+example : ex2.WF := by decide
+example : ex2.BoxesOK := by
+  intro b hb
+  simp only [ex2, List.mem_cons, List.not_mem_nil, or_false] at hb
+  rcases hb with rfl | rfl | rfl
+  · exact generators_respect.1
+  · exact tyc_respects 1 0
+  · exact proj_respects 1 0
+example : ex2.call [.atom 1, .tok .float 2] = .ok (.tup [.atom 1, .atom 1]) := by decide
+example : ex2.call [.tok .float 1, .atom 2] = .ok (.tup [.atom 0, .tok .float 1]) := by decide
+example : ex2.call [.tok .bool 1, .tok .none 0] = .ok (.tup [.atom 5, .tok .bool 1]) := by decide
+/-- Structural diagrams move unhashable values (a list, a dict) like any other. -/
+example : (swapD 1 2).bind (·.call [.tok .list 0, .tok .dict 1, .tok .float 1]) =
+    .ok (.tup [.tok .dict 1, .tok .float 1, .tok .list 0]) := by decide
+example : (copyD 2).bind (·.call [.tok .set 0, .tok .bool 0]) =
+    .ok (.tup [.tok .set 0, .tok .bool 0, .tok .set 0, .tok .bool 0]) := by decide
+/-- The numeric tower of the pool's arithmetic: `True + True` is the int 2, `1 + 1.0` the float 2.0,
+    `None + 1` a `TypeError`. -/
+example : ADD.call [.tok .bool 1, .tok .bool 1] = .ok (.atom 2) := by decide
+example : ADD.call [.atom 1, .tok .float 1] = .ok (.tok .float 2) := by decide
+example : ADD.call [.tok .none 0, .atom 1] = .error .type := by decide
+/-- A 0-input box (a state) used twice is run twice: two wires. -/
+example : (CDiagram.mk 0 2 [(Prim.const 0 (.tok .float 1)).box 0 1,
+    (Prim.const 0 (.tok .float 1)).box 0 1] [0, 1]).call [] =
+    .ok (.tup [.tok .float 1, .tok .float 1]) := by decide
 
 /-! ### The documented limit: a tuple on a single wire is re-split -/
 
